@@ -68,7 +68,9 @@ pub struct Harness {
   pub cap: u32,
   /// free-list shape built before the threads start:
   /// bit0 free block a (40 bytes), bit1 free block c (56 or 40 bytes), bit2 leave 24 bytes of fresh
-  /// space, bit3 block c is 56 bytes instead of 40, bit4 also free a third block e (24 bytes)
+  /// space, bit3 block c is 56 bytes instead of 40, bit4 also free a third block e (24 bytes),
+  /// bit5 the free block e is the last thing below the cursor (the filler is allocated first and an 8-byte
+  /// tail block behind e is released last), with 8 bytes (+ bit2 / `leave`) of fresh space behind it
   pub shape: u8,
   pub progs: Vec<Vec<TOp>>,
   /// every logical thread owns its own clone and drops it at the end (teardown inside the schedule)
@@ -946,7 +948,7 @@ thread_local! {
 
 pub fn run_one(h: &Harness, prefix: &[u8], o: &ExecOpts) -> ExecOut {
   let n = h.progs.len();
-  let cfg = Cfg { fl: h.fl, backend: Backend::Vec, unify: h.unify, reserved: 0, min_seg: h.min_seg, max_align: 8, cap: h.cap, magic: 0 };
+  let cfg = Cfg { fl: h.fl, backend: Backend::Vec, unify: h.unify, reserved: 0, min_seg: h.min_seg, max_align: 8, cap: h.cap, magic: 0, file_offset: 0 };
   let arena: Arena = Options::new().with_capacity(h.cap).with_unify(h.unify).with_freelist(h.fl.to()).with_minimum_segment_size(h.min_seg).alloc::<Arena>().expect("arena");
   let dof = cfg.data_offset();
   let base = arena.raw_mut_ptr();
@@ -957,24 +959,42 @@ pub fn run_one(h: &Harness, prefix: &[u8], o: &ExecOpts) -> ExecOut {
   }
   let c_size = if h.shape & 8 != 0 { 56 } else { 40 };
   let sizes = [40u32, 40, c_size, 24, 24];
+  let tail_mode = h.shape & 32 != 0;
+  let leave_amt = |remaining: u32| if h.leave > 0 { h.leave.min(remaining) } else if h.shape & 4 != 0 { 24 } else { 0 };
   let mut blocks = vec![];
+  let mut dm = (0, 0, 0, 0);
+  if tail_mode {
+    // the filler comes first, so that block e ends up next to the cursor (see `shape`, bit5)
+    let r = arena.remaining() as u32;
+    let rem = r - sizes.iter().sum::<u32>() - 8 - leave_amt(r);
+    let mut d = arena.alloc_bytes(rem).expect("init fill");
+    unsafe { d.detach() };
+    dm = meta_of(&d);
+  }
   for s in sizes {
     let mut b = arena.alloc_bytes(s).expect("init alloc");
     unsafe { b.detach() };
     blocks.push(meta_of(&b));
   }
-  let rem = arena.remaining() as u32 - if h.leave > 0 { h.leave.min(arena.remaining() as u32) } else if h.shape & 4 != 0 { 24 } else { 0 };
-  let mut d = arena.alloc_bytes(rem).expect("init fill");
-  unsafe { d.detach() };
-  let dm = meta_of(&d);
-  drop(d);
+  let mut tail_x = None;
+  if tail_mode {
+    let mut x = arena.alloc_bytes(8).expect("init tail");
+    unsafe { x.detach() };
+    tail_x = Some(meta_of(&x));
+  } else {
+    let r = arena.remaining() as u32;
+    let rem = r - leave_amt(r);
+    let mut d = arena.alloc_bytes(rem).expect("init fill");
+    unsafe { d.detach() };
+    dm = meta_of(&d);
+  }
   let rg = arena.ranges();
   let mut pre: Vec<LiveH> = vec![];
   let mut live: Vec<LiveH> = vec![];
   let mut hb = if o.hb { Some(Hb::new(n + 1, rg.cap, fn_of)) } else { None };
   // blocks: a(0) b(1) c(2) d(3) e(4); b and d stay live and can be released by threads (pre[0], pre[1])
   for (k, m) in blocks.iter().enumerate() {
-    let freeit = (k == 0 && h.shape & 1 != 0) || (k == 2 && h.shape & 2 != 0) || (k == 4 && h.shape & 16 != 0);
+    let freeit = (k == 0 && h.shape & 1 != 0) || (k == 2 && h.shape & 2 != 0) || (k == 4 && h.shape & (16 | 32) != 0);
     let pat = 0xC0 + k as u8;
     unsafe { std::ptr::write_bytes(base.add(m.0), pat, m.1) };
     if freeit {
@@ -989,6 +1009,10 @@ pub fn run_one(h: &Harness, prefix: &[u8], o: &ExecOpts) -> ExecOut {
   }
   unsafe { std::ptr::write_bytes(base.add(dm.0), 0xDD, dm.1) };
   live.push(LiveH { tid: n, m: dm, pat: 0xDD, kind: "bytes", path: "fresh" });
+  if let Some(x) = tail_x {
+    // released as the last allocation: the cursor moves back to the end of the free block e
+    unsafe { arena.dealloc(x.2 as u32, x.3 as u32) };
+  }
   if let Some(hb) = hb.as_mut() {
     // everything the initialising thread did happens-before the start of every logical thread
     hb.init_done(n);
